@@ -44,7 +44,7 @@ def make_jobs(pid: str, scn: list[dict], scales: list[int], seed: int, chunk: in
     for k, j in enumerate(jobs):
         if k % 8 == 0:
             jobs.append({"pid": pid, "scn": j["scn"][:3], "scales": scales[:1], "seed": seed, "cagrad": True,
-                         "only": "CAGrad"})
+                         "only": "CAGrad", "histories": False})
     return jobs
 
 
@@ -54,7 +54,8 @@ def run_sc(ctx: Ctx, pid: str) -> dict:
     scn = [s for s in scn_all if s["mode"] == MODE_OF[pid]]
     ctx.extra["scenarios_exported"] = len(scn_all)
     rng = random.Random(ctx.seed)
-    picked = sample_scenarios(scn, budget, rng, keep=lambda s: s["steps"] == 0)
+    # always replayed: the identity of every instance and PadZero applied directly to it (every count and layout)
+    picked = sample_scenarios(scn, budget, rng, keep=lambda s: s["steps"] == 0 or (s["steps"] == 1 and s["pad"]["cnt"] > 0))
     ctx.extra["scenarios_replayed"] = len(picked)
     jobs = make_jobs(pid, picked, scales, ctx.seed, chunk, LADDER_SCALES[ctx.tier] if pid == "C09" else None)
     import torchjd.aggregation  # noqa: F401  (imported once, before the workers fork)
@@ -65,7 +66,7 @@ def run_sc(ctx: Ctx, pid: str) -> dict:
     bad = {k: v for k, v in margin.items() if v > 1.0}
     ctx.traces += len(picked)
     for s in picked[:1] + picked[len(picked) // 2: len(picked) // 2 + 1]:
-        ctx.sample({"scenario": {k: s[k] for k in ("id", "J0", "P0", "rp", "Q", "den", "J", "P", "c1", "c2", "a", "b", "cls")}})
+        ctx.sample({"scenario": {k: s[k] for k in ("id", "J0", "P0", "rp", "Q", "den", "J", "P", "c1", "c2", "a", "b", "pad", "cls")}})
     if not ctx.evaluations:
         raise MachineryError("no evaluation performed")
     return {"picked": picked, "all": scn, "over": bad}
@@ -80,5 +81,7 @@ def run_replay(ctx: Ctx, pid: str, path: str) -> None:
         return
     job = {"pid": pid, "scn": [p["scenario"]], "scales": [p["e"]], "seed": rec.get("seed", ctx.seed),
            "cagrad": True, "only": p["agg"]}
+    if "history_rps" in p:       # C10, one aggregator object: the permutations it was called on before the recorded one
+        job |= {"history_rps": p["history_rps"], "wide": p["wide"], "clause": "one-object"}
     margin: dict = {}
     merge(ctx, [run_job(job)], margin)
